@@ -4,6 +4,7 @@ package harness
 // the session.
 
 import (
+	"sync/atomic"
 	"encoding/xml"
 	"errors"
 	"fmt"
@@ -138,6 +139,9 @@ type c18Case struct {
 	// TLS (end to end only): the session was upgraded with STARTTLS, so the keepalive has to travel inside the TLS
 	// stream like every other byte
 	TLS bool `json:"tls,omitempty"`
+	// SlowHandler (end to end only): the application's handler of the Disconnected event takes 8 intervals (a
+	// StreamManager spends that time reconnecting inside it); the ended session's keepalive must be silent meanwhile
+	SlowHandler bool `json:"slow_handler,omitempty"`
 }
 
 func genC18(t *rapid.T) c18Case {
@@ -158,6 +162,7 @@ func genC18(t *rapid.T) c18Case {
 	if c.EndToEnd {
 		c.StreamClose = rapid.Bool().Draw(t, "streamClose")
 		c.TLS = rapid.Bool().Draw(t, "tls")
+		c.SlowHandler = rapid.Bool().Draw(t, "slowHandler")
 	}
 	return c
 }
@@ -303,6 +308,23 @@ func runC18E2E(c c18Case) vh.Result {
 	}
 	wrap := &stubTransport{failAt: c.FailAt, inner: xmpp.VerifGetTransport(cl)}
 	xmpp.VerifSetTransport(cl, wrap)
+	var inHandler [2]int // keepalives attempted so far when the Disconnected handler was entered / left
+	var handlerDone atomic.Bool
+	if c.SlowHandler {
+		res.Label("slow-disconnected-handler")
+		cl.SetHandler(func(e xmpp.Event) error {
+			err := rec.onEvent(e)
+			if xmpp.VerifEventState(e) == xmpp.StateDisconnected && !handlerDone.Load() {
+				p, _ := wrap.snapshot()
+				inHandler[0] = len(p)
+				time.Sleep(8 * interval)
+				p, _ = wrap.snapshot()
+				inHandler[1] = len(p)
+				handlerDone.Store(true)
+			}
+			return err
+		})
+	}
 	start := time.Now()
 	if err := cl.Connect(); err != nil {
 		res.Fail("harness-connect", "Connect: %v", err)
@@ -393,6 +415,13 @@ func runC18E2E(c c18Case) vh.Result {
 	pings1, _ := wrap.snapshot()
 	time.Sleep(5 * interval)
 	pings2, _ := wrap.snapshot()
+	if c.SlowHandler {
+		if !waitFor(vh.Margin(5*time.Second)+10*interval, handlerDone.Load) {
+			res.Fail("t/handler-not-run", "%s: the Disconnected handler did not run to its end", desc)
+		} else if n := inHandler[1] - inHandler[0]; n > 1 {
+			res.Fail("keepalive-while-loss-is-handled", "%s: %d keepalives were attempted while the Disconnected handler was running (8 intervals); the session had ended before the handler was called", desc, n)
+		}
+	}
 	if len(pings2) > len(pings1) {
 		res.Fail("ping-after-session-end", "%s: %d keepalives were attempted after the loss had been reported", desc, len(pings2)-len(pings1))
 	}
@@ -402,7 +431,7 @@ func runC18E2E(c c18Case) vh.Result {
 
 var c18 = vh.Define(&vh.Def[c18Case]{
 	Property: "C18", Name: "keepalive",
-	Rule: "interval 2-40 ms x {k-th keepalive write fails, k in 1-10 | session ends after a generated fraction of the interval (1-100 tenths) | steady} x {bare keepalive loop on a stub Transport | real Client whose Transport is wrapped (Ping fails at k) against the scripted peer, the session ending by a cut of the connection or by </stream:stream> on a connection that stays open}; oracle: n keepalives never take less than (n-1) intervals (a ticker never fires early: sound upper bound on the rate) at least one within 100 intervals + 3 s, each is a single newline on the wire, after the failing keepalive Close is called exactly once, no further keepalive follows, the loop returns and (end to end) the loss is reported by one error callback and one Disconnected event, no keepalive starts later than max(3 intervals, 100 ms) after the session ended and the loop returns; non-trivial = a failure index or an end time was drawn, or the end-to-end variant",
+	Rule: "interval 2-40 ms x {k-th keepalive write fails, k in 1-10 | session ends after a generated fraction of the interval (1-100 tenths) | steady} x {bare keepalive loop on a stub Transport | real Client whose Transport is wrapped (Ping fails at k) against the scripted peer, the session ending by a cut of the connection or by </stream:stream> on a connection that stays open, over clear-text TCP or STARTTLS, the application's Disconnected handler returning at once or after 8 intervals (at most one keepalive may be attempted while it runs)}; oracle: n keepalives never take less than (n-1) intervals (a ticker never fires early: sound upper bound on the rate) at least one within 100 intervals + 3 s, each is a single newline on the wire, after the failing keepalive Close is called exactly once, no further keepalive follows, the loop returns and (end to end) the loss is reported by one error callback and one Disconnected event, no keepalive starts later than max(3 intervals, 100 ms) after the session ended and the loop returns; non-trivial = a failure index or an end time was drawn, or the end-to-end variant",
 	Quick: 160, Thorough: 2400, Journal: true,
 	Gen: genC18, Run: runC18,
 })
